@@ -97,8 +97,10 @@ class Impl:
 
         self.d, self.u, self.mutant = diagnostics, utils, mutant
 
-    O_REPR = ("c", "grain-transposed-view", "fortran", "buffer", "strided", "readonly", "buffer")
-    F_REPR = ("c", "fortran", "strided", "buffer", "readonly", "buffer")
+    # ("buffer" entries come in runs: a result remembered for the IDENTITY of the argument of the previous call is stale
+    #  when the caller has refilled that same array object in the meantime)
+    O_REPR = ("c", "buffer", "buffer", "buffer", "grain-transposed-view", "buffer", "buffer", "fortran", "buffer", "buffer", "buffer", "strided", "readonly")
+    F_REPR = ("c", "buffer", "buffer", "fortran", "strided", "buffer", "buffer", "buffer", "readonly")
 
     def _o(self, o):
         # mutant "columns": an implementation that builds the scatter matrix from columns
